@@ -18,6 +18,11 @@ cases={
 "aliaspath": (ctl("aliaspath","// @Method(GET)\n// @Route(/x/{the-id})\n// @Path(id, { name: \"the-id\" })\nfunc (c *C) M(id string) error { return nil }\n"),"accept"),
 "dupurlparam": (ctl("dupurlparam","// @Method(GET)\n// @Route(/x/{id}/y/{id})\nfunc (c *C) M() error { return nil }\n"),"reject"),
 "twobadaliases": (ctl("twobadaliases","// @Method(GET)\n// @Route(/x/{a}/{b})\n// @Path(p, { name: 12 })\n// @Path(q, { name: 13 })\nfunc (c *C) M(p string, q string) error { return nil }\n"),"reject"),
+"sliceheader": (ctl("sliceheader","// @Method(GET)\n// @Route(/x)\n// @Header(h)\nfunc (c *C) M(h []string) error { return nil }\n"),"reject"),
+"slicepath": (ctl("slicepath","// @Method(GET)\n// @Route(/x/{p})\n// @Path(p)\nfunc (c *C) M(p []int) error { return nil }\n"),"reject"),
+"sliceform": (ctl("sliceform","// @Method(POST)\n// @Route(/x)\n// @FormField(f)\nfunc (c *C) M(f []string) error { return nil }\n"),"reject"),
+"slicequery": (ctl("slicequery","// @Method(GET)\n// @Route(/x)\n// @Query(q)\nfunc (c *C) M(q []string) error { return nil }\n"),"accept"),
+"structquery": (ctl("structquery","type B struct{ X int }\n\n// @Method(GET)\n// @Route(/x)\n// @Query(q)\nfunc (c *C) M(q B) error { return nil }\n"),"reject"),
 "warnonly": (ctl("warnonly","// @Method(GET)\n// @Route(/x)\nfunc (c *C) M() error { return nil }\n\n// @Method(GET)\n// @Route(/x)\nfunc (c *C) M2() error { return nil }\n"),"accept"),
 }
 for n,(src,exp) in cases.items():
